@@ -39,7 +39,31 @@ func TestVerifC23(t *testing.T) {
 		g := newVdb(r)
 		g.emitTables(tr)
 		for i := 0; i < 8 && done < n; i++ {
-			q := g.build(1 + r.Intn(3))
+			q := g.build(r.Intn(4))
+			switch r.Intn(10) {
+			case 0:
+				if s := g.singletonJoin(); s != nil && g.valid(s) {
+					q = s
+				}
+			case 1, 2:
+				// a table (with indexes, often the string table) restricted to fixed values, under
+				// one operator: selections against fixed values, '' selections on index columns
+				t := g.tableNode()
+				for range 4 {
+					if len(t.tbl.indexes) > 0 && (t.tbl.id == 3 || r.Intn(2) == 0) {
+						break
+					}
+					t = g.tableNode()
+				}
+				q = t
+				if w := g.indexWhere(t, false); w != nil && r.Intn(3) != 0 && g.valid(w) {
+					q = w
+				}
+				if u := g.unary(q, []string{"extend", "extend", "rename", "project", "summarize", "where"}[r.Intn(6)]); u != nil && r.Intn(4) != 0 && g.valid(u) {
+					q = u
+				}
+				g.note("fixed-under-unary")
+			}
 			if r.Intn(5) == 0 {
 				if s := g.unary(q, "sort"); s != nil && g.valid(s) {
 					q = s
@@ -77,6 +101,19 @@ func (g *vdb) checkC23(tr *lib.Trace, n *vnode) {
 	r := g.r
 	src := n.src()
 	th := &Thread{}
+	// a where with '' in an in-list anywhere in the query (known: its index point overlaps the
+	// ranges of the other values) gets its own signature
+	inEmpty := ""
+	var walk func(x *vnode)
+	walk = func(x *vnode) {
+		if x.op == "where" && vinEmpty(x.expr) {
+			inEmpty = "+in-empty"
+		}
+		for _, k := range x.kids {
+			walk(k)
+		}
+	}
+	walk(n)
 	where := func() string { return "db: " + g.describe() + " query: " + src + " | columns " + strings.Join(g.ids.names, ",") }
 
 	// the rows as written
@@ -315,12 +352,33 @@ func (g *vdb) checkC23(tr *lib.Trace, n *vnode) {
 		tr.Count("walk-skipped-duplicate-rows")
 	}
 	q.Rewind()
+	selected := false
+	defer func() {
+		if selected {
+			q.Select(nil)
+		}
+	}()
 	// select / lookup with selections taken from a row as written, or made to match nothing
 	if (use == ReqOrder || use == ReqGroup || use == ReqUnique) && len(index) > 0 {
-		for range 4 {
+		for range 6 {
 			srcRow := make(Row, len(hdr0.Fields))
 			if len(rows0) > 0 {
 				srcRow = rows0[r.Intn(len(rows0))]
+				if r.Intn(4) == 0 {
+					// the row with the most empty values on the index columns
+					best := -1
+					for _, row := range rows0 {
+						n := 0
+						for _, c := range index {
+							if row.GetRawVal(hdr0, c, th, nil) == "" {
+								n++
+							}
+						}
+						if n > best {
+							best, srcRow = n, row
+						}
+					}
+				}
 			}
 			selCols := append([]string{}, index...)
 			r.Shuffle(len(selCols), func(i, j int) { selCols[i], selCols[j] = selCols[j], selCols[i] })
@@ -329,6 +387,14 @@ func (g *vdb) checkC23(tr *lib.Trace, n *vnode) {
 			if len(rows0) == 0 || r.Intn(3) == 0 {
 				kind = "absent"
 				i := r.Intn(len(sels))
+				// prefer a column the query reports as fixed (a selection that conflicts with it)
+				for j, sl := range sels {
+					for _, fx := range fixed0 {
+						if fx.col == sl.col && r.Intn(2) == 0 {
+							i = j
+						}
+					}
+				}
 				switch r.Intn(3) {
 				case 0:
 					sels[i].val = Pack(SuStr("nonexistent"))
@@ -371,11 +437,12 @@ func (g *vdb) checkC23(tr *lib.Trace, n *vnode) {
 					continue
 				}
 				if got != wantS {
-					tr.Fail("lookup-spec:"+kind, at()+" | lookup "+selS+" | as written "+wantS+" | returned "+got)
+					tr.Fail("lookup-spec:"+kind+inEmpty, at()+" | lookup "+selS+" | as written "+wantS+" | returned "+got)
 				}
 				tr.Q("lookup "+selS+" "+n.toks(&g.ids), got)
 			} else {
 				tr.Count("select=" + kind)
+				selected = true
 				q.Select(sels)
 				var rows []Row
 				for row := q.Get(th, Next); row != nil; row = q.Get(th, Next) {
@@ -383,10 +450,14 @@ func (g *vdb) checkC23(tr *lib.Trace, n *vnode) {
 				}
 				got := canon(rows)
 				if strings.Join(got.rows, ";") != strings.Join(want.rows, ";") {
-					tr.Fail("select-spec:"+kind, at()+" | select "+selS+" | as written "+vtrunc(want.show(&g.ids), 300)+" | read "+vtrunc(got.show(&g.ids), 300))
+					tr.Fail("select-spec:"+kind+inEmpty, at()+" | select "+selS+" | as written "+vtrunc(want.show(&g.ids), 300)+" | read "+vtrunc(got.show(&g.ids), 300))
 				}
 				tr.Q("select "+selS+" "+n.toks(&g.ids), got.show(&g.ids))
-				q.Select(nil)
+				// a join selects again without clearing; clear only sometimes
+				if r.Intn(2) == 0 {
+					q.Select(nil)
+					tr.Count("select-cleared-between")
+				}
 			}
 		}
 	}
